@@ -28,6 +28,9 @@ func baseFld(name string, num int, ty string) absd.Fld {
 
 type rgen struct {
 	rng *rand.Rand
+	// customDur: the configuration names "Duration" as duration_custom_type; integer fields are then also cast to
+	// names which merely END in it
+	customDur bool
 }
 
 func (g *rgen) pick(s []string) string { return s[g.rng.Intn(len(s))] }
@@ -49,6 +52,10 @@ func (g *rgen) scalarField(name string, num int, allowOneofShapes bool) absd.Fld
 		f.Nullable = g.rng.Intn(2) == 0
 	case 4:
 		f.Ty, f.Cast = "int64", "time.Duration"
+	case 5:
+		if g.customDur {
+			f.Ty, f.Cast = "int64", []string{"Duration", "BlockDuration", "XtimeDuration"}[g.rng.Intn(3)]
+		}
 	}
 	switch g.rng.Intn(5) {
 	case 0:
@@ -78,7 +85,7 @@ func comment(g *rgen) []absd.CLine {
 
 // randomShape builds one random (descriptor, configuration) pair with root "Root".
 func randomShape(id string, rng *rand.Rand, size int) (absd.Desc, absd.Cfg) {
-	g := &rgen{rng: rng}
+	g := &rgen{rng: rng, customDur: rng.Intn(3) == 0}
 	// Leaf: scalars only
 	leaf := absd.Msg{Name: "Leaf", Oneofs: []string{}, Comment: []absd.CLine{}}
 	names := rng.Perm(len(rndPlainNames))
@@ -177,6 +184,11 @@ func randomShape(id string, rng *rand.Rand, size int) (absd.Desc, absd.Cfg) {
 	other := mk("Other", []string{"Leaf", "Mid"}, 1+rng.Intn(3))
 	root := mk("Root", []string{"Leaf", "Mid", "Other"}, 1+rng.Intn(size))
 	d := absd.Desc{Pkg: "tp", Msgs: []absd.Msg{leaf, inner, empty, mid, other, root}, Deps: []absd.Dep{}}
+	if rng.Intn(4) == 0 {
+		// Leaf lives in another file of the same package
+		d.Msgs = []absd.Msg{inner, empty, mid, other, root}
+		d.Deps = []absd.Dep{{Pkg: "lim", Share: true, Msgs: []absd.Msg{leaf}}}
+	}
 	c := absd.Cfg{Types: []string{"Root"}, Sort: rng.Intn(2) == 0, TimeType: true, DurationType: true,
 		Exclude: []string{}, Required: []string{}, Computed: []string{}, Sensitive: []string{}, NameOverrides: []absd.KV{},
 		Validators: []absd.KVs{}, PlanModifiers: []absd.KVs{}, Injected: []absd.KInj{}, CustomTypes: []absd.KV{}, Suffixes: []absd.KV{},
@@ -202,6 +214,40 @@ func randomShape(id string, rng *rand.Rand, size int) (absd.Desc, absd.Cfg) {
 	if rng.Intn(3) == 0 {
 		c.Computed = append(c.Computed, "Leaf."+leaf.Fields[0].Name)
 		c.USFU = true
+	}
+	if g.customDur {
+		c.DurationCustom = "Duration"
+	}
+	// a field of a nested message addressed by its full path (and, sometimes, by Message.field as well)
+	for _, f := range root.Fields {
+		if f.Ty != "msg" || f.Embed || f.Oneof != "" || rng.Intn(3) != 0 {
+			continue
+		}
+		var sub *absd.Msg
+		for i := range d.Msgs {
+			if d.Msgs[i].Name == f.Ref {
+				sub = &d.Msgs[i]
+			}
+		}
+		if f.Ref == "Leaf" {
+			sub = &leaf
+		}
+		if sub == nil || len(sub.Fields) == 0 || sub.Fields[0].Embed || sub.Fields[0].Oneof != "" {
+			continue
+		}
+		key := "Root." + f.Name + "." + sub.Fields[0].Name
+		switch rng.Intn(3) {
+		case 0:
+			c.Required = append(c.Required, key)
+		case 1:
+			c.Sensitive = append(c.Sensitive, key)
+			c.Computed = append(c.Computed, sub.Name+"."+sub.Fields[0].Name)
+		case 2:
+			c.Validators = append(c.Validators, absd.KVs{K: key, V: []string{"3"}})
+			if rng.Intn(2) == 0 {
+				c.Validators = append(c.Validators, absd.KVs{K: sub.Name + "." + sub.Fields[0].Name, V: []string{"1"}})
+			}
+		}
 	}
 	if rng.Intn(4) == 0 {
 		c.Injected = append(c.Injected, absd.KInj{K: "Root", V: []absd.Inj{{Name: "id", Type: "string", Computed: true}}})
